@@ -11,6 +11,7 @@ import (
 	"fmt"
 	"go/token"
 	"go/types"
+	"sort"
 	"strings"
 
 	"golang.org/x/tools/go/ssa"
@@ -417,4 +418,92 @@ func (e *Enc) lazyRef(st *State, marker string) Val {
 	var i int
 	fmt.Sscanf(marker, "@lazy!%d", &i)
 	return e.resolveLocal(st, e.lazyRefs[i])
+}
+
+// ---------------------------------------------------------------- rename tolerance for local names
+//
+// Contracts mention local variables by name (loop invariants, site clauses).  So that renaming a local
+// does not break a proof, /verif/locals.json records, for the pinned tree, each named local of every
+// function under contract as (type, ordinal among the named locals of that type in source order).  When
+// a contract name no longer exists in the function, it is resolved to the local in that position.
+
+type localShape struct {
+	Name    string `json:"name"`
+	Occ     int    `json:"occ"` // ordinal among locals of the same name
+	Type    string `json:"type"`
+	TypeOrd int    `json:"type_ord"`
+}
+
+func namedAllocs(fn *ssa.Function) []*ssa.Alloc {
+	var out []*ssa.Alloc
+	for _, b := range fn.Blocks {
+		for _, ins := range b.Instrs {
+			if a, ok := ins.(*ssa.Alloc); ok && a.Comment != "" {
+				switch a.Comment {
+				case "complit", "varargs", "makeslice", "new", "slicelit", "defer$stack":
+					continue
+				}
+				out = append(out, a)
+			}
+		}
+	}
+	sort.SliceStable(out, func(i, j int) bool { return out[i].Pos() < out[j].Pos() })
+	return out
+}
+
+func localShapes(fn *ssa.Function) []localShape {
+	var out []localShape
+	byName, byType := map[string]int{}, map[string]int{}
+	for _, a := range namedAllocs(fn) {
+		t := a.Type().(*types.Pointer).Elem().String()
+		out = append(out, localShape{a.Comment, byName[a.Comment], t, byType[t]})
+		byName[a.Comment]++
+		byType[t]++
+	}
+	return out
+}
+
+// renamedLocals: contract names of fn that no longer exist, mapped to the allocation now in their recorded position.
+func (e *Enc) renamedLocals(fn *ssa.Function) map[string]*ssa.Alloc {
+	if e.renames != nil {
+		if r, ok := e.renames[fn]; ok {
+			return r
+		}
+	} else {
+		e.renames = map[*ssa.Function]map[string]*ssa.Alloc{}
+	}
+	res := map[string]*ssa.Alloc{}
+	e.renames[fn] = res
+	shapes := e.m.localTable[e.m.fnName[fn]]
+	if len(shapes) == 0 {
+		return res
+	}
+	allocs := namedAllocs(fn)
+	present := map[string]bool{}
+	for _, a := range allocs {
+		present[a.Comment] = true
+	}
+	recorded := map[string]bool{}
+	for _, s := range shapes {
+		recorded[s.Name] = true
+	}
+	for _, s := range shapes {
+		if present[s.Name] {
+			continue // the name still exists: no guessing
+		}
+		n := 0
+		for _, a := range allocs {
+			if a.Type().(*types.Pointer).Elem().String() != s.Type {
+				continue
+			}
+			if n == s.TypeOrd {
+				if !recorded[a.Comment] {
+					res[fmt.Sprintf("%s#%d", s.Name, s.Occ)] = a
+				}
+				break
+			}
+			n++
+		}
+	}
+	return res
 }
